@@ -23,14 +23,18 @@ META = {
                   "extract_border_cycle_all, extract_boundary_of_surface and FeatureEdgeDetector.run whose expressions, "
                   "thresholds, comparisons and index plumbing are regenerated from the source on every run. The surface "
                   "connectivity enters as input tables satisfying a stated boolean well-formedness predicate (sorted "
-                  "neighbourhoods: first neighbour of a border vertex = its border predecessor), which Coq also evaluates "
-                  "on the tables of every generated mesh. Model and code are tied by kernel-evaluated correspondence "
-                  "batches; an independent brute-force oracle (face list, Fractions) searches for failing inputs.",
+                  "neighbourhoods: first neighbour of a border vertex = its border predecessor); the bridge theorems "
+                  "(C15_tables_wf_every_manifold_surface, C15_cycle_every_manifold_surface) prove from C01's theorems that "
+                  "the tables of C01's model of SurfaceMesh satisfy it for EVERY oriented manifold polygon surface, and Coq "
+                  "also evaluates it on the real tables of every generated mesh. Model and code are tied by kernel-evaluated "
+                  "correspondence batches (fresh detectors, meshes already used by a run, one detector object re-used "
+                  "across runs and meshes); an independent brute-force oracle (face list, Fractions) searches for "
+                  "failing inputs.",
     "level_note": "Trusted: Coq kernel + vm_compute; the border/features translator; the correspondence harness "
                   "(generators, driver canonicalisation, tolerance band 1e-9 on dot products / angle sums that binary64 "
-                  "does not compute exactly); that the real connectivity tables are well-formed for EVERY manifold "
-                  "surface is C01's theorem (here: checked per case); face normals and corner angles are inputs "
-                  "(C07); Reals axioms of the stdlib only for the degree reading of the thresholds.",
+                  "does not compute exactly); C01's model of surface.py/linear.py is the one C01 ties to the code (its "
+                  "translator and correspondence); face normals and corner angles are inputs (C07); Reals axioms of the "
+                  "stdlib only for the degree reading of the thresholds.",
 }
 
 HEADER = """From Coq Require Import ZArith List Bool QArith.
@@ -43,7 +47,12 @@ EPS = Fraction(1, 10 ** 9)
 
 
 def gen(ctx):
-    return tr.gen()
+    # Props.v imports C01's cone (BridgeThm.v): C01's generated model must be regenerated from the same
+    # working tree, otherwise the bridge theorems would be checked against a stale model of surface.py
+    from ..translate import c01 as tr01
+    files = dict(tr01.gen())
+    files.update(tr.gen())
+    return files
 
 
 # ---------------------------------------------------------------------- encoders
@@ -287,15 +296,16 @@ def run(ctx):
                 "computed or declared (exact quarter-integers); 3 detector option sets per mesh, the third on a mesh already used by a run. Non-trivial = at least "
                 "one border loop and at least two faces; distinct = by canonical JSON of the case")
     ctx.assumptions += [
-        "the connectivity answers consumed by border.py/features.py are input tables; well-formedness (sorted "
-        "neighbourhoods) is proved by C01 and evaluated here per case by Coq (wf_b, wf_f)",
+        "the connectivity answers consumed by border.py/features.py are input tables; well-formedness wf_b (sorted "
+        "neighbourhoods) is PROVED for every oriented manifold surface from C01's theorems (BridgeThm.v) and also "
+        "evaluated per case by Coq on the real tables (wf_b, wf_f; wf_f is per case only)",
         "face normals and corner angle sums are inputs of the detector model (computed by face_normals / corner_angles: C07)",
         "a detector run on a mesh that already went through a run with other options must give the same answers as on "
         "a fresh mesh (third option set of every case); ONE detector object re-used for 2-4 runs (same mesh and a second "
         "mesh, options changed between runs) must give after each run the containers of the mesh it just ran on"]
     ctx.regen(sys.modules[__name__])
     b = ctx.build_props(extra_targets=["theories/C15/Run.vo"])
-    ctx.hygiene(["Lib", "C15"])
+    ctx.hygiene(["Lib", "C15", "C01"])
 
     corpus = []
     cdir = os.path.join(core.ROOT, "corpus", "C15")
